@@ -93,7 +93,7 @@ CHECKS = {
         "technique": "bounded model checking (Kani/CBMC) of the offset -> line/column conversion against a byte-level reference: symbolic offsets over listed texts, plus one symbolic text byte after listed prefixes",
         "text": "SourceFile::get_line_column for EVERY 64-bit offset (in bounds, at the end, out of bounds) on 12 listed texts (13 thorough) that contain "
                 "\\n, \\r\\n, lone \\r, trailing terminators, vertical tab, form feed, U+0085, U+2028, U+2029 and 2-/3-/4-byte characters, and on "
-                "prefix ++ [b] for every ASCII byte b (or every continuation byte of a 2-byte character) after 7 listed prefixes (9 thorough), every valid 2-byte UTF-8 text (thorough); "
+                "prefix ++ [b] for every ASCII byte b (or every continuation byte of a 2-byte character) after 9 listed prefixes (11 thorough), every valid 2-byte UTF-8 text (thorough); "
                 "get_line_column_range for every pair of offsets on 2 texts. Reference: GraphQL LineTerminator lines, Unicode-scalar-value columns.",
         "design_ref": "DESIGN.md section 4, C11",
         "note": "alloc::fmt::format stubbed; the SourceFile is built from its fields; locations attached during CST conversion, the SourceMap lookup and "
